@@ -96,7 +96,7 @@ def id_of_uuid(u):
 
 def mode_name(m):
     """dataset mode id -> shortname of src/modes_initialization.cpp"""
-    return {0: "transferable", 1: "bus", 2: "rail"}.get(m, "metro")
+    return {0: "transferable", 1: "bus", 2: "rail", 3: "tram", 4: "tramTrain"}.get(m, "metro")
 
 
 # ---------------------------------------------------------------------------------------------------
